@@ -10,7 +10,8 @@ def replay(case):
 def names(tier):
     out = ['h_e_rt_simple', 'h_e_rt_dag', 'h_e_rt_digraph', 'h_e_rt_bip', 'h_e_rt_bip33',
            'h_e_rt_big_simple', 'h_e_rt_big_dag', 'h_e_rt_big_digraph', 'h_e_rt_big_bip', 'h_e_write_mutate_write', 'h_e_rt_complete_bip', 'h_e_read_write_read',
-           'h_e_kth2', 'h_e_dim2', 'h_e_mat2', 'h_e_len01', 'h_e_mat3', 'h_e_bip_handwritten', 'h_e_simple_handwritten', 'h_e_from_file_named']
+           'h_e_kth2', 'h_e_dim2', 'h_e_mat2', 'h_e_len01', 'h_e_mat3', 'h_e_bip_handwritten', 'h_e_simple_handwritten', 'h_e_from_file_named',
+           'h_e_two_reads_mat', 'h_e_two_reads_kth', 'h_e_two_reads_dim']
     out += ['h_e_kth3_%d_%d' % (t, g) for t in range(4) for g in range(4)]
     out += ['h_e_dim3_%d_%d' % (t, g) for t in range(3) for g in range(3)]
     if tier != 'quick':
@@ -35,7 +36,7 @@ def run(tier):
         'type is a violation; a dag file is accepted only if every edge goes from a lower to a higher vertex. gml/dot go through '
         'networkx/pydot and are executed concretely.')
     run.bounds = ['hand-written bipartite gml/dot texts: sides <=3x2, every edge set, 3 node declaration orders, either orientation of the first 2 edges', 'round trips: G(<=4), D(<=4), DG(<=3), B(<=3,<=3), 12-13 vertex skeleton graphs x all formats', 'readers: <=%d menu lines, with and without final newline' % (3 if tier == 'quick' else 4)]
-    run.bounds += ['CompleteBipartiteGraph sides <=4 in all four formats', 'write - change the graph (add/remove edge, grow) - write in any format - read back', 'dimacs/kthlist texts with 0-3 comment lines read, written in every format, read back']
+    run.bounds += ['CompleteBipartiteGraph sides <=4 in all four formats', 'write - change the graph (add/remove edge, grow) - write in any format - read back', 'dimacs/kthlist texts with 0-3 comment lines read, written in every format, read back', 'two reads in one call: any text of three menu lines (mostly rejected), then a valid text of the same format (matrix, kthlist, dimacs) that must be read exactly']
     run.outside = ['arbitrary gml/dot text (networkx/pydot parsers are outside the repository)', 'texts outside the menus', 'dimacs lines that are neither c/p/e (behaviour unspecified; only "no crash" is required)']
     run.assumptions = ['the reference readers define "a graph consistent with the text"', 'CrossHair exhaustiveness accounting']
     T = 400 if tier == 'quick' else 1500
